@@ -4,7 +4,7 @@ The AST is produced on every run from /repo's current working tree:
     clang++ -std=c++17 -I<repo>/include -fsyntax-only -Xclang -ast-dump=json -Xclang -ast-dump-filter=<F>
 Nothing is cached between runs.
 """
-import json, os, subprocess, sys, hashlib
+import json, os, re, subprocess, sys, hashlib
 
 REPO = os.environ.get("PHQV_REPO", "/repo")
 INC = os.path.join(REPO, "include")
@@ -34,10 +34,12 @@ def dump(tu_text, workdir, name, filt="PhQ", extra_flags=(), tolerate=None):
     declarations clang marks invalid are not lowered and are reported as outside the subset)."""
     os.makedirs(workdir, exist_ok=True)
     src = os.path.join(workdir, name + ".cpp")
-    out = os.path.join(workdir, name + ".json")
+    out = os.path.join(workdir, name + ("" if filt == "PhQ" else "." + re.sub(r"\W+", "_", filt or "all")) + ".json")
     with open(src, "w") as f:
         f.write(tu_text)
-    cmd = ["clang++", "-std=c++17", "-I" + INC, "-fsyntax-only", "-Wno-everything",
+    # address-space randomisation off: AST node ids (pointer values) are then identical across
+    # invocations on the same TU, so dumps taken with different -ast-dump-filter values can be merged
+    cmd = ["setarch", "x86_64", "-R", "clang++", "-std=c++17", "-I" + INC, "-fsyntax-only", "-Wno-everything",
            "-Xclang", "-ast-dump=json"]
     if filt:
         cmd += ["-Xclang", "-ast-dump-filter=" + filt]
